@@ -116,6 +116,17 @@ class C12:
             op = C02P.to_harness({"id": 0, "names": NAMES, "ops": [{"op": "handle", "n": "a", "layer": second}]})["ops"][0]
             cases.append({"kind": "layer", "names": [bl(n) for n in NAMES], "probes": PROBES, "prep": prep, "op": op,
                           "errnos": ERRNOS, "all_errnos": tier == "thorough"})
+        # struct API: a restored layer whose metadata has another shape than the request's type (the TOML is read a second
+        # time, generically, for the invalid-metadata callback): a failure of THAT read is an error too
+        for inv in ({"d": "delete", "cause": 1}, {"d": "migrate", "cause": 3, "version": "2"}):
+            first = {"op": "req", "n": "a", "q": {"kind": "cached", "launch": True, "build": False, "m": "G", "inv": {"d": "delete", "cause": 1},
+                                                  "res": {"d": "keep", "cause": 2}},
+                     "writes": [{"w": "meta", "md": {"other": True}}, {"w": "file", "rel": [bl("bin"), bl("tool")], "data": bl("t")}]}
+            second = {"op": "req", "n": "a", "q": {"kind": "cached", "launch": True, "build": False, "m": "V", "inv": inv,
+                                                   "res": {"d": "keep", "cause": 2}}, "writes": []}
+            h = C01P.to_harness({"id": 0, "names": NAMES, "ops": [first, {"op": "restore"}, second]})
+            cases.append({"kind": "layer", "names": h["names"], "probes": PROBES, "prep": h["ops"][:2], "op": h["ops"][2],
+                          "errnos": ERRNOS, "all_errnos": tier == "thorough"})
         phases = [base_cfg(exe="build", nargs=3, store="ok", pre=True,
                            build={"error": False, "launch": True, "store": True, "build_sboms": ["cdx", "spdx", "syft"], "launch_sboms": ["cdx", "syft"]}),
                   base_cfg(exe="build", nargs=3, store="missing", pre=False,
